@@ -198,6 +198,7 @@ type Env struct {
 	batchBase int
 	lastPl, lastIt int
 	dvrSeg    map[int]int
+	dits      map[int]segment.DictionaryIterator
 	sched     *scheduler
 	gateArmed bool
 	sawBlocked *bool
@@ -212,7 +213,7 @@ func NewEnv(tr *Trace, sc *Scenario, workdir string) *Env {
 		pls:   map[int]segment.PostingsList{}, its: map[int]segment.PostingsIterator{},
 		dvrs:  map[int]segment.DocumentValueReader{}, bms: map[int]*roaring.Bitmap{},
 		objIDs: map[interface{}]int{}, nextObj: 1000000,
-		watchdog: 20 * time.Second * time.Duration(watchdogScale()), cov: map[string]int{}, itFlags: map[int]itFlags{}, docnums: map[int][][]int{}, dvrSeg: map[int]int{}, sawBlocked: new(bool)}
+		watchdog: 20 * time.Second * time.Duration(watchdogScale()), cov: map[string]int{}, itFlags: map[int]itFlags{}, docnums: map[int][][]int{}, dvrSeg: map[int]int{}, sawBlocked: new(bool), dits: map[int]segment.DictionaryIterator{}}
 }
 
 func (e *Env) Close() {
@@ -357,7 +358,7 @@ func (e *Env) Run(ops []Op) {
 func (e *Env) missing(op *Op) bool {
 	segMu.RLock()
 	defer segMu.RUnlock()
-	needSeg := map[string]bool{"persist": true, "persist_fail": true, "close_file": true, "fields": true, "dict": true, "contains": true,
+	needSeg := map[string]bool{"persist": true, "persist_fail": true, "dit_open": true, "close_file": true, "fields": true, "dict": true, "contains": true,
 		"pl_open": true, "stored": true, "dv_open": true, "match": true, "stats": true, "stats_merge": true,
 		"observe": true, "layout": false}
 	if needSeg[op.Op] && e.segs[op.Seg] == nil {
@@ -441,6 +442,10 @@ func (e *Env) Do(op *Op) {
 		e.doArmGateClose(op)
 	case "wfaults":
 		e.doWFaults(op)
+	case "dit_open":
+		e.doDitOpen(op)
+	case "dit_next":
+		e.doDitNext(op)
 	case "persist_fail":
 		e.doPersistFail(op)
 	case "watchdog":
@@ -1488,4 +1493,50 @@ func (e *Env) doPersistFail(op *Op) {
 	w := &faultWriter{limit: op.N, closeAt: -1}
 	e.call(func() { h.seg.WriteTo(w, nil) })
 	e.emit(M{"ev": "skip", "op": "persist_fail"})
+}
+
+// dictionary iterators as objects that live across calls (several of one Dictionary at the same time)
+func (e *Env) doDitOpen(op *Op) {
+	h := e.seg(op.Seg)
+	var err error
+	class := e.call(func() {
+		var d segment.Dictionary
+		d, err = e.dictOf(h, op.Field, true) // always the same Dictionary object of this (segment, field)
+		if err != nil {
+			return
+		}
+		if e.dits == nil {
+			e.dits = map[int]segment.DictionaryIterator{}
+		}
+		e.dits[op.R] = d.Iterator(makeAutomaton(op.Aut), boundRaw(op.Lo), boundRaw(op.Hi))
+	})
+	e.emit(M{"ev": "dit_open", "seg": op.Seg, "field": op.Field, "lo": boundEv(op.Lo), "hi": boundEv(op.Hi), "aut": autEv(op.Aut),
+		"r": 500000 + op.R, "res": resKind(class, err)})
+}
+
+func (e *Env) doDitNext(op *Op) {
+	it := e.dits[op.R]
+	if it == nil {
+		e.emit(M{"ev": "skip", "op": "dit_next"})
+		return
+	}
+	res := M{}
+	var err error
+	class := e.call(func() {
+		var en segment.DictionaryEntry
+		en, err = it.Next()
+		if err == nil && en != nil {
+			res = M{"end": false, "term": B([]byte(en.Term())), "count": clampInt(en.Count())}
+		} else {
+			res = M{"end": true, "term": Bytes{}, "count": -1}
+		}
+	})
+	k := resKind(class, err)
+	for key, v := range res {
+		k[key] = v
+	}
+	if k["kind"] != "ok" {
+		k["end"], k["term"], k["count"] = true, Bytes{}, -1
+	}
+	e.emit(M{"ev": "dit_next", "r": 500000 + op.R, "res": k})
 }
